@@ -214,7 +214,7 @@ def _bool_defs(body, b, bval):
     return out if out is not None else bval
 
 
-def path_literal_sets(body, target_bb, limit=10000, avoid=()):
+def path_literal_sets(body, target_bb, limit=10000, avoid=(), final=None):
     """literal sets of every back-edge-free path entry -> target_bb (raises OverflowError beyond limit).
     Path sensitive for boolean locals: `let flag = match x { None => true, Some(i) => cond(i) }; if flag {..}` contributes, on each
     path, the literal of the arm that was taken (or prunes the infeasible edge when the arm assigned a constant)."""
@@ -238,6 +238,20 @@ def path_literal_sets(body, target_bb, limit=10000, avoid=()):
     while stack:
         b, lits, bval = stack.pop()
         if b == target_bb:
+            if final is not None:
+                # the condition operand of a `cond.then_some(v)` at the end of the target block, with the required polarity
+                op, pol = final
+                bv = _bool_defs(body, b, bval)
+                tr = bv.get(op['pl']['l']) if op['k'] in ('copy', 'move') and not op['pl']['p'] else None
+                if tr is not None and tr[0] == 'const':
+                    if tr[1] != pol:
+                        continue
+                elif tr is not None and tr[0] == 'dag':
+                    lits = lits | frozenset(norm_literal(tr[1], pol))
+                else:
+                    d = simplify(body.dag().operand(op, b, len(body.blocks[b]['stmts'])))
+                    if d[0] not in ('phi', 'loop'):
+                        lits = lits | frozenset(norm_literal(d, pol))
             res.append(lits)
             n += 1
             if n > limit:
